@@ -55,16 +55,26 @@ func (node *tagIncludeNode) Execute(ctx *ExecutionContext, writer TemplateWriter
 		}
 		err2 = includedTpl.ExecuteWriter(includeCtx, writer)
 		if err2 != nil {
-			return err2.(*Error)
+			return node.executionError(ctx, err2)
 		}
 		return nil
 	}
 	// Template is already parsed with static filename
 	err := node.tpl.ExecuteWriter(includeCtx, writer)
 	if err != nil {
-		return err.(*Error)
+		return node.executionError(ctx, err)
 	}
 	return nil
+}
+
+// executionError: ExecuteWriter returns the included template's *Error, or,
+// when the rendered text could not be handed over, the plain error of the
+// underlying writer (ExecuteWriterUnbuffered writes straight to the caller's).
+func (node *tagIncludeNode) executionError(ctx *ExecutionContext, err error) *Error {
+	if e, ok := err.(*Error); ok {
+		return e
+	}
+	return ctx.OrigError(err, nil)
 }
 
 type tagIncludeEmptyNode struct{}
